@@ -49,6 +49,20 @@ def run(res, b, tier, seed):
     pipeline.model_parse(b, cases)
     dis, fails = [], []
     counts = dict(accept=0, reject=0)
+    # the conclusion of C07.accepted_programs_use_visible_variables evaluated on the ASTs of the REAL parser (single files, and a
+    # main file that imports one leaf file: there the program is the leaf's statements followed by the main file's)
+    with_ast = [c for c in cases if c.out.get("AST", ("", ""))[0] == "OK" and not c.id.startswith("i")]
+    use_answers = pipeline.model_lines(b, ["PTCHECK " + c.out["AST"][1] for c in with_ast])
+    use_stats = dict(asts=len(with_ast), variables_visible=0)
+    for c, a in zip(with_ast, use_answers):
+        f = a.split(" ")
+        if len(f) != 6 or f[0] != "PT":
+            fails.append((c, "ptcheck-failed", a[:200]))
+        elif f[5] != "1":
+            fails.append((c, "accepted-ast-uses-invisible-variable", "a variable in the accepted AST is used where no definition, parameter list or loop header "
+                                                                     "visible at that place introduced it (PT.useSs, conclusion of C07.accepted_programs_use_visible_variables)"))
+        else:
+            use_stats["variables_visible"] += 1
     for c in cases:
         r = c.meta
         ast, sh = c.out.get("AST", ("MISSING", ""))[0], c.out.get("BASH", ("MISSING", ""))[0]
@@ -72,6 +86,7 @@ def run(res, b, tier, seed):
              "block structure; distinct = distinct (kind, def slot, use slot)",
         samples=[dict(kind=c.meta["name"], d=c.meta.get("d"), u=c.meta.get("u"), expect=c.meta["expect"], src=c.meta["src"]) for c in (cases[5], cases[700], cases[-1])],
         expected=counts,
+        variable_theorem_on_real_asts=use_stats,
         correspondence=dict(stage="AST (Model.Parser vs parser.Parse incl. verdict)", compared=len(cases), disagreements=len(dis)),
         oracle_failures=len(fails),
     ))
